@@ -280,7 +280,14 @@ func trimValidIPv6Field(s string, gotFields int, hasEllipsis bool) (withoutField
 
 	if s[fieldLen] == '.' {
 		// Probably an IPv4 in the end.
-		return "", hasEllipsis == (gotFields < maxIPv6FieldsNum-2) && isValidIPv4String(s)
+		// The embedded IPv4 address takes the place of the last two fields, so
+		// there must be exactly six fields before it unless there is an
+		// ellipsis, and less than six otherwise.
+		const maxFieldsBeforeIPv4 = maxIPv6FieldsNum - 2
+
+		return "", gotFields <= maxFieldsBeforeIPv4 &&
+			hasEllipsis == (gotFields < maxFieldsBeforeIPv4) &&
+			isValidIPv4String(s)
 	}
 
 	return s[fieldLen:], true
